@@ -790,7 +790,7 @@ theorem float_encoding_roundtrip (hI : IntRoundTrip) (hF : FloatRoundTrip) (u : 
       subst hf
       have hsz' : readInt size.repr = .ok size := hI size
       rcases hvalid with ⟨rfl, rfl⟩ | ⟨rfl | rfl, rfl | rfl | rfl⟩ <;>
-        cases contexts <;> simp [hsz'] <;> decide
+        cases contexts <;> simp [hsz', normFloatEncoding] <;> decide
 
 /-! ### binary encodings -/
 
